@@ -1,4 +1,5 @@
 import GixModel.Lemmas.C14Graph
+import GixModel.Lemmas.C14Access
 /-
 C14 — Commit-graph data agrees with the commits it describes.  PROPERTY THEOREMS ONLY.
 
@@ -174,6 +175,109 @@ theorem graph_commit_eq (layers : List SLayer) (hok : ∀ l ∈ layers, LayerOk 
     rw [show ((sChainFrom layers 0).map (·.1))[k]? = some (sFile layers[k] (0 + k)) from hfile]
     simp only [Option.bind_some]
     exact sFile_idAt layers[k] hl (0 + k) i hi'
+
+/-! ### any byte string: `File::new` and the accessors never panic -/
+
+/-- `File::new` (header, chunk table of contents, chunk validation) is total: NO byte string makes
+it panic — it either rejects with an error or accepts. -/
+theorem file_new_total (data : Bytes) : ∃ r, File.new data = some r := by
+  obtain ⟨r, hr, _⟩ := File.new_total data
+  exact ⟨r, hr⟩
+
+/-- What is accepted has a 256-entry monotonic fan-out table of u32 and OIDL / CDAT chunks of
+exactly `num_commits * 20` / `num_commits * 36` bytes (the chunk ranges came out of the table of
+contents in-bounds: `start ≤ end ≤ file length`). -/
+theorem accepted_file_shape (data : Bytes) (f : File) (h : File.new data = some (.ok f)) :
+    f.fan.length = 256 ∧ fanMonotone f.fan = true ∧
+      ∃ n, f.numCommits = some n ∧ f.oidl.length = n * 20 ∧ f.cdat.length = n * 36 := by
+  obtain ⟨r, hr, hacc⟩ := File.new_total data
+  rw [h] at hr; injection hr with hr
+  have := hacc f hr.symm
+  exact ⟨this.fanLen, this.mono, this.sizes⟩
+
+/-- On ANY accepted file every accessor is panic-free: `id_at` and `commit_at` + the whole parent
+iteration for every position below `num_commits`, and `lookup` for every id (the u32 midpoint
+needs `num_commits < 2^31`, which `Graph::new` enforces: `MAX_COMMITS` < 2^31). -/
+theorem accepted_file_accessors_total (data : Bytes) (f : File) (h : File.new data = some (.ok f)) :
+    ∃ n, f.numCommits = some n ∧
+      (∀ pos, pos < n → (∃ id, f.idAt pos = some id ∧ id.length = 20) ∧ ∃ s, f.seen pos = some s) ∧
+      (n < 2147483648 → ∀ id : Bytes, id ≠ [] → ∃ r, f.lookup id = some r ∧ ∀ lex, r = some lex → lex < n) := by
+  obtain ⟨r, hr, hacc⟩ := File.new_total data
+  rw [h] at hr; injection hr with hr
+  have ha := hacc f hr.symm
+  obtain ⟨n, hn, _, _⟩ := ha.sizes
+  refine ⟨n, hn, ?_, ?_⟩
+  · intro pos hp
+    exact ⟨File.idAt_total ha hn hp, File.seen_total ha hn hp⟩
+  · intro hs id hid
+    exact File.lookup_total ha hn hs id hid
+
+/-- The same for a whole chain: if every file was accepted by `File::new` and `Graph::new` accepted
+the total, then `commit_by_id` (any id) and `commit_at` / `id_at` (any position below
+`num_commits`) never panic. -/
+theorem graph_accessors_total (datas : List Bytes) (files : List File)
+    (hopen : datas.map File.new = files.map (fun f => some (.ok f)))
+    (g : Graph) (hg : Graph.new files = some (.ok g)) :
+    (∀ id : Bytes, id ≠ [] → ∃ r, g.commitById id = some r) ∧
+    (∃ total, g.numCommits = some total ∧ ∀ pos, pos < total →
+      (∃ s, g.commitAt pos = some s) ∧ ∃ id, g.idAt pos = some id) := by
+  -- every file is `Accepted`
+  have hacc : ∀ f ∈ files, Accepted f := by
+    intro f hf
+    obtain ⟨i, hi, hget⟩ := List.getElem_of_mem hf
+    have hlen : datas.length = files.length := by simpa using congrArg List.length hopen
+    have := congrArg (fun l => l[i]?) hopen
+    simp only [List.getElem?_map, List.getElem?_eq_getElem hi, List.getElem?_eq_getElem (hlen ▸ hi), Option.map_some,
+      Option.some.injEq] at this
+    obtain ⟨r, hr, h2⟩ := File.new_total (datas[i]'(hlen ▸ hi))
+    rw [this] at hr; injection hr with hr
+    rw [← hget]; exact h2 _ hr.symm
+  -- the commit counts, and what `Graph::new` checked
+  unfold Graph.new at hg
+  cases hns : files.mapM File.numCommits with
+  | none => rw [hns] at hg; cases hg
+  | some ns =>
+    rw [hns] at hg
+    simp only [Option.bind_eq_bind, Option.bind_some] at hg
+    by_cases hbig : ns.sum > MAX_COMMITS
+    · rw [if_pos hbig] at hg; cases hg
+    · rw [if_neg hbig] at hg
+      injection hg with hg; injection hg with hg
+      have hfiles : g.files = files := by rw [← hg]
+      have hmap : files.map File.numCommits = ns.map some := mapM_numCommits files ns hns
+      have hsmall : ∀ n ∈ ns, n < 2147483648 := by
+        intro n hn
+        have : n ≤ ns.sum := le_sum_of_mem' ns n hn
+        simp only [MAX_COMMITS] at hbig
+        omega
+      constructor
+      · intro id hid
+        obtain ⟨r, hr, hr2⟩ := lookupById_total id hid files hacc ns hmap hsmall 0 0
+        unfold Graph.commitById
+        rw [hfiles, hr]
+        cases r with
+        | none => exact ⟨_, rfl⟩
+        | some t =>
+          obtain ⟨k, lex, gp⟩ := t
+          obtain ⟨j, f, n, hk, hf, hn, hl⟩ := hr2 k lex gp rfl
+          have hk' : k = j := by omega
+          subst hk'
+          obtain ⟨s, hs⟩ := File.seen_total (hacc f (List.mem_of_getElem? hf)) hn hl
+          simp only [Option.bind_eq_bind, Option.bind_some, hf, hs]
+          exact ⟨_, rfl⟩
+      · refine ⟨ns.sum, ?_, ?_⟩
+        · simp only [Graph.numCommits, hfiles, hns, Option.map_some]
+        · intro pos hp
+          obtain ⟨k, p, f, n, h1, h2, h3, h4⟩ := lookupByPos_total files hacc ns hmap 0 pos hp
+          simp only [Nat.zero_add] at h1
+          have hf := hacc f (List.mem_of_getElem? h2)
+          obtain ⟨s, hs⟩ := File.seen_total hf h3 h4
+          obtain ⟨id, hid, _⟩ := File.idAt_total hf h3 h4
+          constructor
+          · simp only [Graph.commitAt, hfiles, h1, Option.bind_eq_bind, Option.bind_some, h2, hs]
+            exact ⟨_, rfl⟩
+          · simp only [Graph.idAt, hfiles, h1, Option.bind_eq_bind, Option.bind_some, h2, hid]
+            exact ⟨_, rfl⟩
 
 -- non-vacuity: a chain of two files; the commit in the second file is an octopus over commits of
 -- both files (graph positions 0, 2, 1, 3 — position 3 is the first commit of the second file)
